@@ -1,5 +1,6 @@
 (* C01 property theorems (theorems only; proofs in the other C01 files). *)
-From Wz Require Import lib.Bytes C01.Gen C01.Model C01.Pins C01.Proofs.
+From Coq Require Import Lia.
+From Wz Require Import lib.Bytes C01.Gen C01.Model C01.Pins C01.Proofs C01.Strings C01.Hold C01.Search C01.Inv C01.Chunks.
 Open Scope N_scope.
 
 (* the pattern texts, templates, state names and SEARCH_EXTRA_LENGTH the hand-written matchers
@@ -17,3 +18,185 @@ Theorem C01_next_event_consumes : forall lim B c ev c',
   next_event lim B c = Ok (ev, c') -> (length (buf c') <= length (buf c))%nat.
 Proof. exact next_event_buf_le. Qed.
 Print Assumptions C01_next_event_consumes.
+
+(* Hold-back soundness of _parse_data (both start modes), for an arbitrary future x: when no
+   delimiter is reported (more_data = true) and del bytes are consumed, the data emitted is exactly
+   the bytes between the starting line break and del, and in no extension of the buffer does a
+   boundary_re match start before del.  good_boundary B: the boundary has no CR / LF.
+   This is the statement violated by the two defects repaired in /repo (3b7aa1f, c7604fe). *)
+Theorem C01_holdback_sound : forall B s start st0 d del st',
+  good_boundary B = true ->
+  parse_data B s start st0 = Ok (d, del, true, st') ->
+  let ds := if start then lb_len s else 0%nat in
+  (del <= length s)%nat /\ st' = st0 /\ d = firstn (del - ds) (skipn ds s) /\
+  (del = 0%nat \/ (ds <= del)%nat) /\
+  forall x j, (j < del)%nat -> match_delim false B (skipn j (s ++ x)) = None.
+Proof. exact holdback_sound. Qed.
+Print Assumptions C01_holdback_sound.
+
+(* a delimiter reported by _parse_data on the buffer s is the leftmost boundary_re match of every
+   extension s ++ x, with the same start and final flag; its end can only grow, and for a
+   non-final delimiter only by the LF that completes a CR at the very end of s *)
+Theorem C01_found_leftmost : forall B s start st0 d del st' x,
+  good_boundary B = true ->
+  parse_data B s start st0 = Ok (d, del, false, st') ->
+  let ds := if start then lb_len s else 0%nat in
+  exists ms f e',
+    search_delim false B s 0 = Some (ms, del, f) /\
+    search_delim false B (s ++ x) 0 = Some (ms, (ms + e')%nat, f) /\
+    d = firstn (ms - ds) (skipn ds s) /\ st' = (if f then EPILOGUE else PART) /\
+    (del <= length s)%nat /\ (del <= ms + e')%nat /\
+    (f = false -> (ms + e')%nat = del \/
+       (del = length s /\ (ms + e')%nat = S del /\ (exists x', x = LF :: x') /\ exists s0, s = s0 ++ [CR])).
+Proof. exact found_leftmost. Qed.
+Print Assumptions C01_found_leftmost.
+
+(* the two repaired defects as instances.  B = bound; payload LF y^30 CR with the LF of the
+   delimiter still to come: the CR is held back *)
+Example C01_holdback_example_cr :
+  let B := [98; 111; 117; 110; 100] in
+  let s := LF :: repeat 121 30 ++ [CR] in
+  good_boundary B = true /\ parse_data B s false DATA = Ok (firstn 31 s, 31%nat, true, DATA).
+Proof. vm_compute. split; reflexivity. Qed.
+Print Assumptions C01_holdback_example_cr.
+
+(* body-less part, buffer CR LF - - b o u at DATA_START: nothing is consumed *)
+Example C01_holdback_example_bodyless :
+  let B := [98; 111; 117; 110; 100] in
+  parse_data B [CR; LF; DASH; DASH; 98; 111; 117] true DATA_START = Ok ([], 0%nat, true, DATA_START).
+Proof. vm_compute. reflexivity. Qed.
+Print Assumptions C01_holdback_example_bodyless.
+
+(* good_boundary is needed: with a LF inside the boundary (B = a LF b) the hold point lies inside
+   a partial delimiter, and the extension has a match before it *)
+Example C01_holdback_needs_good_boundary :
+  let B := [97; LF; 98] in
+  let s := [120; CR; LF; DASH; DASH; 97; LF] in
+  let x := [98; CR; LF] in
+  parse_data B s false DATA = Ok (firstn 6 s, 6%nat, true, DATA) /\
+  match_delim false B (skipn 1 (s ++ x)) = Some (9%nat, false).
+Proof. vm_compute. split; reflexivity. Qed.
+Print Assumptions C01_holdback_needs_good_boundary.
+
+(* Search-position soundness: the inductive step of the invariant behind _search_position.
+   PART (unconditional): if no blank-line match of any extension starts before pos, then after a
+   failed search none starts before len - SEARCH_EXTRA_LENGTH, and a successful search returns the
+   leftmost blank line of every extension.
+   PREAMBLE (W = P ++ r the whole body, P the buffer, (d0, e0, f0) the first position of W where
+   --B(--[hws]*LB?|[hws]*LB) matches, at most SEARCH_EXTRA_LENGTH - 2 blanks after a non-final first
+   delimiter): if spos is not after d0, then after a failed search the new position
+   len - |B| - SEARCH_EXTRA_LENGTH is not after d0 either, and a successful search returns the first
+   delimiter of W: same final flag, start not after d0, same end (or, for a non-final delimiter, one
+   less when P ends with the CR of its CR LF). *)
+Theorem C01_search_position_sound :
+  (forall s pos,
+    (forall x j, (j < pos)%nat -> match_blank (skipn j (s ++ x)) = 0%nat) ->
+    match search_blank s pos with
+    | None => forall x j, (j < length s - search_extra_length)%nat -> match_blank (skipn j (s ++ x)) = 0%nat
+    | Some (ms, me) => forall x, search_blank (s ++ x) 0 = Some (ms, me)
+    end) /\
+  (forall B P r spos d0 e0 f0,
+    good_boundary B = true ->
+    first_tail B (P ++ r) d0 e0 f0 ->
+    (f0 = false -> (blanks_at B (P ++ r) d0 + 2 <= search_extra_length)%nat) ->
+    (spos <= d0)%nat ->
+    match search_delim true B P spos with
+    | None => (length P - length B - search_extra_length <= d0)%nat
+    | Some (ms, me, f) =>
+        f = f0 /\ (ms <= d0)%nat /\ (d0 <= me)%nat /\ (me <= d0 + e0)%nat /\ (me <= length P)%nat /\
+        (f0 = false -> me = (d0 + e0)%nat \/
+           (me = length P /\ S me = (d0 + e0)%nat /\ (exists r', r = LF :: r') /\ exists P0, P = P0 ++ [CR]))
+    end).
+Proof. split; [exact part_search_sound|exact preamble_search_sound]. Qed.
+Print Assumptions C01_search_position_sound.
+
+(* the hypotheses of the PREAMBLE half are satisfiable: B = bound, body CR LF --bound SP SP CR LF x,
+   buffer = the body up to the first blank *)
+Example C01_search_position_example :
+  let B := [98; 111; 117; 110; 100] in
+  let P := [CR; LF; DASH; DASH; 98; 111; 117; 110; 100; 32] in
+  let r := [32; CR; LF; 120] in
+  good_boundary B = true /\ first_tail B (P ++ r) 2 11 false /\
+  (blanks_at B (P ++ r) 2 + 2 <= search_extra_length)%nat /\ search_delim true B P 0 = None.
+Proof.
+  cbv zeta. split; [reflexivity|]. split; [|split; [vm_compute; lia|reflexivity]].
+  split; [reflexivity|]. intros j Hj. destruct j as [|[|j]]; [reflexivity|reflexivity|lia].
+Qed.
+Print Assumptions C01_search_position_example.
+
+(* the blanks hypothesis is needed: with 7 blanks after the first boundary and the buffer ending
+   before its line break, the retained search position is after the -- of the delimiter *)
+Example C01_search_position_blanks_needed :
+  let B := [98; 111; 117; 110; 100] in
+  let P := [DASH; DASH; 98; 111; 117; 110; 100; 32; 32; 32; 32; 32; 32; 32] in
+  let r := [CR; LF; 120] in
+  first_tail B (P ++ r) 0 16 false /\ blanks_at B (P ++ r) 0 = 7%nat /\ search_delim true B P 0 = None /\
+  ~ (length P - length B - search_extra_length <= 0)%nat.
+Proof.
+  cbv zeta. split; [split; [reflexivity|intros j Hj; lia]|]. split; [reflexivity|]. split; [reflexivity|].
+  vm_compute. lia.
+Qed.
+Print Assumptions C01_search_position_blanks_needed.
+
+(* THEOREM A.  Chunk independence relative to the one-shot run, for every body the one-shot decoder
+   accepts.  wf_oneshot B W (computable, Inv.v) is the conjunction of
+     (1) the one-shot parse of W reaches the final delimiter (body_parts B W is Some),
+     (2) at most SEARCH_EXTRA_LENGTH - 2 blanks after a non-final first delimiter,
+     (3) no non-final delimiter ends with CR LF and is followed by LF.
+   parts_equiv: both runs succeed, same number of parts, payloads byte-identical, each raw header
+   block of the chunked run is that of the one-shot run or that with one LF in front (a chunk edge
+   between the CR and the LF that end a delimiter line; _parse_headers skips the empty line).
+   No hypothesis on the chunks: empty chunks are allowed. *)
+Theorem C01_chunk_independence : forall B W chunks,
+  good_boundary B = true -> wf_oneshot B W = true -> concat chunks = W ->
+  parts_equiv (drive no_limits B chunks) (drive no_limits B [W]).
+Proof. exact chunk_independence. Qed.
+Print Assumptions C01_chunk_independence.
+
+(* any two chunkings of a wf body: header blocks equal up to one leading LF on either side *)
+Theorem C01_chunk_independence_any_two : forall B chunks1 chunks2,
+  good_boundary B = true -> wf_oneshot B (concat chunks1) = true -> concat chunks2 = concat chunks1 ->
+  parts_equiv2 (drive no_limits B chunks1) (drive no_limits B chunks2).
+Proof. exact chunk_independence_any_two. Qed.
+Print Assumptions C01_chunk_independence_any_two.
+
+(* the one-shot run returns exactly the parts computed by the walk over the whole body *)
+Theorem C01_oneshot_spec : forall B W,
+  good_boundary B = true -> wf_oneshot B W = true ->
+  exists evs, drive no_limits B [W] = Ok evs /\ parts_of evs = oneshot_parts B W.
+Proof. exact oneshot_spec. Qed.
+Print Assumptions C01_oneshot_spec.
+
+(* the hypotheses of theorem A hold for a realistic three-part CRLF body: a body-less part, an empty
+   payload, and a payload with a look-alike delimiter *)
+Example C01_wf_example : good_boundary ex_B = true /\ wf_oneshot ex_B ex_body = true.
+Proof. exact wf_example. Qed.
+Print Assumptions C01_wf_example.
+
+(* each conjunct of wf_oneshot is needed: dropping it admits a body and a two-chunk schedule on which
+   the conclusion fails (the other conjuncts hold) *)
+Example C01_wf_needed_oneshot :
+  wf_oneshot ex_B ex_W1 = false /\ ~ parts_equiv (drive no_limits ex_B [ex_W1]) (drive no_limits ex_B [ex_W1]).
+Proof. exact wf_needed_oneshot. Qed.
+Print Assumptions C01_wf_needed_oneshot.
+
+Example C01_wf_needed_blanks :
+  first_blanks_ok ex_B ex_W2 = false /\ first_glitch_free ex_B ex_W2 = true /\
+  (exists ws, body_parts ex_B ex_W2 = Some ws /\ all_good ws = true) /\
+  ~ parts_equiv (drive no_limits ex_B [firstn 14 ex_W2; skipn 14 ex_W2]) (drive no_limits ex_B [ex_W2]).
+Proof. exact wf_needed_blanks. Qed.
+Print Assumptions C01_wf_needed_blanks.
+
+Example C01_wf_needed_first_glitch :
+  first_blanks_ok ex_B ex_W3 = true /\ first_glitch_free ex_B ex_W3 = false /\
+  (exists ws, body_parts ex_B ex_W3 = Some ws /\ all_good ws = true) /\
+  ~ parts_equiv (drive no_limits ex_B [firstn 8 ex_W3; skipn 8 ex_W3]) (drive no_limits ex_B [ex_W3]).
+Proof. exact wf_needed_first_glitch. Qed.
+Print Assumptions C01_wf_needed_first_glitch.
+
+Example C01_wf_needed_inner_glitch :
+  first_blanks_ok ex_B ex_W4 = true /\ first_glitch_free ex_B ex_W4 = true /\
+  (exists ws, body_parts ex_B ex_W4 = Some ws /\ all_good ws = false) /\
+  ~ parts_equiv (drive no_limits ex_B [firstn 27 ex_W4; skipn 27 ex_W4]) (drive no_limits ex_B [ex_W4]).
+Proof. exact wf_needed_inner_glitch. Qed.
+Print Assumptions C01_wf_needed_inner_glitch.
